@@ -732,7 +732,12 @@ class HomeKitConnection:
 
         # FIXME: Should drop the connection if can't parse the event?
 
-        decoded = event.body.decode("utf-8")
+        try:
+            decoded = event.body.decode("utf-8")
+        except UnicodeDecodeError:
+            # Same as an event that is not JSON: ignore it rather than letting
+            # the exception escape into data_received and kill the connection.
+            return
         if not decoded:
             return
 
